@@ -39,6 +39,27 @@ def check_plumbing(rep, fb, crates=None):
             bad = [f for f, o in fmap.items() if o.startswith("<other") or o == "<value>"]
             distinct = len(set(fmap[f] for f in st)) == len(st)
             rep.ob("plumb.state-borrowed", inst, bool(st) and not bad and distinct, "backend fields %s borrow owner fields %s of %s" % (st, [fmap[f] for f in st], ow.adt), loc_of(ow.with_backend))
+            after = getattr(ow, "state_after", None)
+            untouched = after is not None and after[0] == "struct"
+            changed = []
+            if untouched:
+                from .loops import value_names
+                for fname, v in after[2].items():
+                    want = "self." + fname
+                    if v[0] == "bytes":
+                        if not (len(v[1]) == 1 and v[1][0][0] == "x" and len(v[1][0][2]) == 1 and v[1][0][2][0][0] == ("var", want)):
+                            changed.append(fname)
+                    elif v[0] == "int":
+                        if v[1] != T.ivar(v[1][1], want):
+                            changed.append(fname)
+                    elif v[0] == "struct":
+                        for n2, v2 in v[2].items():
+                            w2 = want + "." + n2
+                            if v2[0] == "bytes" and not (len(v2[1]) == 1 and v2[1][0][0] == "x" and len(v2[1][0][2]) == 1 and v2[1][0][2][0][0] == ("var", w2)):
+                                changed.append(fname + "." + n2)
+                            if v2[0] == "int" and v2[1] != T.ivar(v2[1][1], w2):
+                                changed.append(fname + "." + n2)
+            rep.ob("plumb.state-untouched", inst, untouched and not changed, "owner state is modified only by the driver's calls into the backend (nothing else in *_with_backend, incl. Drop of the transient backend, writes it)" if not changed else "owner fields %s are overwritten around the driver call" % changed, loc_of(ow.with_backend))
         except Undecided as e:
             rep.undecided("plumb.owner", inst, str(e), loc_of(be.one))
 
@@ -296,3 +317,19 @@ def check_overrides(rep, fb):
                    ("overrides provided method(s) %s that no rule analyses" % sorted(bad)) if bad else ("overrides %s" % (sorted(over) or "nothing")), None)
     if n == 0:
         rep.ob("override.analysed", "workspace", False, "no trait impl with provided methods found")
+
+
+def check_exports(rep, fb):
+    """every public type name at a crate root denotes the type of that name (a re-export that
+    renames or crosses two types would silently bind a public name to another mode/variant)."""
+    n = 0
+    for cr in fb.workspace():
+        for e in cr.j.get("exports", []):
+            if not e["public"] or e["kind"] not in ("Struct", "Enum", "TyAlias", "Trait"):
+                continue
+            if not e["target_local"]:
+                continue
+            n += 1
+            rep.ob("export.name", "%s::%s" % (cr.name, e["name"]), e["name"] == e["target_name"], "public name %s -> %s" % (e["name"], e["target"]))
+    if n == 0:
+        rep.ob("export.name", "workspace", False, "no public type found at any crate root")
